@@ -8,7 +8,7 @@
 
 use crate::common::*;
 use crate::model::{self, KsModel};
-use crate::ensure;
+use crate::{ensure, pick};
 use vp_base::obj::*;
 use vp_base::tape::{self, Tape};
 
@@ -150,7 +150,7 @@ fn build(ctx: &Ctx, suite: &Suite, family: usize, sel: usize, key: &[u8], ivseed
 
 fn debug_text(ctx: &Ctx, t: &mut Tape<'_>, r: &mut Report) -> CheckResult {
     let family = t.pick(&[0usize, 0, 1, 2, 3, 3, 4]);
-    let suite = ctx.pick_suite(t, |s| family != 4 || !s.cts.is_empty());
+    let suite = pick!(ctx, t, r, |s| family != 4 || s.has_cts());
     let sel = t.byte() as usize;
     let bs = suite.info.bs;
     let k1 = gen_key(t, suite);
@@ -197,7 +197,7 @@ fn debug_text(ctx: &Ctx, t: &mut Tape<'_>, r: &mut Report) -> CheckResult {
 
 fn zeroize_scan(ctx: &Ctx, t: &mut Tape<'_>, r: &mut Report) -> CheckResult {
     let family = t.pick(&[0usize, 0, 1, 2, 2, 3, 3]);
-    let suite = ctx.pick_suite(t, |_| true);
+    let suite = pick!(ctx, t, r, |_| true);
     let sel = t.byte() as usize;
     let bs = suite.info.bs;
     // random key and IV from different seeds (a patterned IV could coincide with cipher key material)
